@@ -77,6 +77,8 @@ type GDStep struct {
 	ResetMs int `json:"reset_ms,omitempty"`
 	// resign: the PD leader resigns (the global allocator moves to whoever wins)
 	Resign bool `json:"resign,omitempty"`
+	// move: the local allocator of dc-location Move-1 is handed over to another member (next-leader key, holder resigns)
+	Move int `json:"move,omitempty"`
 }
 
 type GDJump struct {
@@ -89,8 +91,11 @@ type GDJump struct {
 }
 
 type GDCase struct {
-	Skip  bool     `json:"skip,omitempty"`
-	PDs   []int    `json:"pds"`
+	Skip bool  `json:"skip,omitempty"`
+	PDs  []int `json:"pds"`
+	// Names of the dc-locations (index = the numbers in PDs): the window records live under <root>/<name>/timestamp,
+	// so names that sort before / after the word "timestamp" and names that are string prefixes of each other matter
+	Names []string `json:"names"`
 	Steps []GDStep `json:"steps"`
 }
 
@@ -127,6 +132,13 @@ func genGlobalDC(t *rapid.T) GDCase {
 			ndc = d + 1
 		}
 	}
+	c.Names = rapid.SampledFrom([][]string{
+		{"zone-1", "zone-10", "zone-2"}, {"zone-1", "zone-10", "zone-2"}, // after "timestamp" and prefix siblings
+		{"dc-1", "dc-10", "dc-2"},      // before "timestamp", prefix siblings
+		{"zone-a", "us-west", "tokyo"}, // after "timestamp"
+		{"alpha", "zone-a", "beta"},    // one before, one after
+		{"dc-1", "dc-2", "dc-3"},       // the usual names
+	}).Draw(t, "names")[:ndc]
 	nsteps := 120
 	if thorough {
 		nsteps = 400
@@ -186,6 +198,22 @@ func genGlobalDC(t *rapid.T) GDCase {
 	for j, n := 0, rapid.IntRange(1, 2).Draw(t, "resigns"); j < n; j++ {
 		insert([]GDStep{{Par: []GDReq{{DC: -1, N: 1}}}, {Resign: true}, {Par: []GDReq{{DC: -1, N: uint32(rapid.SampledFrom(counts).Draw(t, "rn"))}}}})
 	}
+	// the global time is moved ahead by the admin and the PD leader resigns before anything is granted; and the
+	// same with a grant in between
+	for j, n := 0, rapid.IntRange(1, 2).Draw(t, "reset_resign"); j < n; j++ {
+		pat := []GDStep{{Jump: &GDJump{GapMs: 0}}, {Par: []GDReq{{DC: -1, N: 1}}}, {ResetMs: rapid.SampledFrom([]int{4000, 8000}).Draw(t, "rr_ms")}}
+		if j > 0 && rapid.Bool().Draw(t, "rr_grant") {
+			pat = append(pat, GDStep{Par: []GDReq{{DC: -1, N: 1}}})
+		}
+		pat = append(pat, GDStep{Resign: true}, GDStep{Par: []GDReq{{DC: -1, N: 1}}})
+		insert(pat)
+	}
+	// a local allocator that is ahead of the clocks is handed over to another member
+	for j, n := 0, rapid.IntRange(1, 2).Draw(t, "moves"); j < n; j++ {
+		dcx := rapid.IntRange(0, ndc-1).Draw(t, "mdc")
+		insert([]GDStep{{Jump: &GDJump{DC: dcx, AheadMs: rapid.SampledFrom([]int{1500, 2500, 5000}).Draw(t, "m_ahead")}},
+			{Par: []GDReq{{DC: dcx, N: 1}}}, {Move: dcx + 1}, {Par: []GDReq{{DC: dcx, N: 1}}}, {Par: []GDReq{{DC: dcx, N: 2}}}})
+	}
 	// admin ResetTS on the global allocator, within and beyond the gap
 	for j, n := 0, rapid.IntRange(1, 3).Draw(t, "resets"); j < n; j++ {
 		ms := rapid.SampledFrom([]int{1, 200, 900, 1500, 4000}).Draw(t, "reset_ms")
@@ -205,6 +233,7 @@ type gdCluster struct {
 	key     string
 	cancel  context.CancelFunc
 	cluster *tests.TestCluster
+	names   []string
 	cid     uint64
 	root    string
 	etcd    *clientv3.Client // the harness' own client
@@ -239,8 +268,6 @@ func (x *gdCluster) destroy() {
 	x.cancel()
 }
 
-func gdDC(i int) string { return fmt.Sprintf("dc-%d", i+1) }
-
 func gdWithin(d time.Duration, f func()) bool {
 	done := make(chan struct{})
 	go func() {
@@ -256,21 +283,21 @@ func gdWithin(d time.Duration, f func()) bool {
 	}
 }
 
-func gdDCs(pds []int) []string {
+func gdDCs(pds []int, names []string) []string {
 	seen := map[int]bool{}
 	var out []string
 	for _, d := range pds {
 		if !seen[d] {
 			seen[d] = true
-			out = append(out, gdDC(d))
+			out = append(out, names[d])
 		}
 	}
 	sort.Strings(out)
 	return out
 }
 
-func gdGetCluster(pds []int) *gdCluster {
-	key := fmt.Sprint(pds)
+func gdGetCluster(pds []int, names []string) *gdCluster {
+	key := fmt.Sprint(pds, names)
 	if gdCur != nil && gdCur.key == key {
 		return gdCur
 	}
@@ -283,6 +310,8 @@ func gdGetCluster(pds []int) *gdCluster {
 	tso.SetVerifClock(nil, nil)
 	election.SetVerifClock(nil, nil)
 	etcdfix.Close()
+	// hand-overs of local allocators are driven by the program, not by the periodic priority check
+	tso.PriorityCheck = 30 * time.Minute
 	ctx, cancel := context.WithCancel(context.Background())
 	var cl *tests.TestCluster
 	var err error
@@ -293,7 +322,7 @@ func gdGetCluster(pds []int) *gdCluster {
 			if conf.Labels == nil {
 				conf.Labels = map[string]string{}
 			}
-			conf.Labels[config.ZoneLabel] = gdDC(pds[i-1])
+			conf.Labels[config.ZoneLabel] = names[pds[i-1]]
 			conf.TSOSaveInterval = typeutil.NewDuration(gdSaveInterval)
 			conf.Log.Level = "error"
 		})
@@ -306,7 +335,7 @@ func gdGetCluster(pds []int) *gdCluster {
 		cancel()
 		return nil
 	}
-	x := &gdCluster{key: key, cancel: cancel, cluster: cl, conns: map[string]*grpc.ClientConn{}}
+	x := &gdCluster{key: key, cancel: cancel, cluster: cl, names: names, conns: map[string]*grpc.ClientConn{}}
 	if !x.waitLeaders(pds, 90*time.Second) {
 		fmt.Printf("C02 globaldc: cluster %v did not elect all leaders in time\n", pds)
 		x.destroy()
@@ -338,7 +367,7 @@ func (x *gdCluster) waitLeaders(pds []int, d time.Duration) bool {
 		}
 		x.cluster.CheckClusterDCLocation()
 		all := true
-		for _, dc := range gdDCs(pds) {
+		for _, dc := range gdDCs(pds, x.names) {
 			if x.cluster.WaitAllocatorLeader(dc, tests.WithRetryTimes(1), tests.WithWaitInterval(50*time.Millisecond)) == "" {
 				all = false
 			}
@@ -385,6 +414,37 @@ func (x *gdCluster) target(dc string) string {
 		return ""
 	}
 	return x.cluster.GetServer(name).GetAddr()
+}
+
+// handOver moves the local allocator of dc to another member the way the priority checker does (next-leader key, the
+// holder resigns) and waits until the target leads.
+func (x *gdCluster) handOver(dc string) (from, to string, ok bool) {
+	from = x.cluster.WaitAllocatorLeader(dc, tests.WithRetryTimes(1), tests.WithWaitInterval(time.Millisecond))
+	if from == "" {
+		return
+	}
+	var names []string
+	for name := range x.cluster.GetServers() {
+		if name != from {
+			names = append(names, name)
+		}
+	}
+	if len(names) == 0 {
+		return
+	}
+	sort.Strings(names)
+	to = names[0]
+	am := x.cluster.GetServer(from).GetTSOAllocatorManager()
+	if am.TransferAllocatorForDCLocation(dc, x.cluster.GetServer(to).GetServerID()) != nil {
+		return
+	}
+	am.ResetAllocatorGroup(dc)
+	for deadline := time.Now().Add(15 * time.Second); time.Now().Before(deadline); time.Sleep(30 * time.Millisecond) {
+		if x.cluster.WaitAllocatorLeader(dc, tests.WithRetryTimes(1), tests.WithWaitInterval(time.Millisecond)) == to {
+			return from, to, true
+		}
+	}
+	return
 }
 
 func (x *gdCluster) setGap(ms int) {
@@ -517,8 +577,25 @@ type gdSession struct {
 	smu     sync.Mutex
 	streams map[string]*gdStream
 	epoch   int32
+	lepoch  map[string]int
 	// physical part of the latest granted global timestamp
 	lastGlobal int64
+}
+
+// epochOf: number of leader changes of dc's allocator so far (global: PD leader changes).
+func (s *gdSession) epochOf(dc string) int {
+	if dc == tso.GlobalDCLocation {
+		return int(atomic.LoadInt32(&s.epoch))
+	}
+	s.smu.Lock()
+	defer s.smu.Unlock()
+	return s.lepoch[dc]
+}
+
+func (s *gdSession) bump(dc string) {
+	s.smu.Lock()
+	s.lepoch[dc]++
+	s.smu.Unlock()
 }
 
 func (s *gdSession) close() {
@@ -565,7 +642,7 @@ func (s *gdSession) getStream(slot int, dc string) (*gdStream, error) {
 }
 
 func (s *gdSession) do(step, slot int, dc string, n uint32, id int) *gdEv {
-	ev := &gdEv{ID: id, Step: step, DC: dc, N: int64(n), Epoch: int(atomic.LoadInt32(&s.epoch)), Leader: s.x.cluster.GetLeader()}
+	ev := &gdEv{ID: id, Step: step, DC: dc, N: int64(n), Epoch: s.epochOf(dc), Leader: s.x.cluster.GetLeader()}
 	defer func() {
 		s.hmu.Lock()
 		s.hist = append(s.hist, ev)
@@ -637,15 +714,21 @@ func runGlobalDC(c GDCase) (vkit.Info, error) {
 		return info, nil
 	}
 	gdMu.Lock()
-	x := gdGetCluster(c.PDs)
+	for _, d := range c.PDs {
+		if d < 0 || d >= len(c.Names) {
+			return info, nil
+		}
+	}
+	x := gdGetCluster(c.PDs, c.Names)
 	gdMu.Unlock()
 	if x == nil {
 		info.Inconclusive = true
 		return info, nil
 	}
-	dcs := gdDCs(c.PDs)
+	dcs := gdDCs(c.PDs, c.Names)
+	info.Class("names-" + strings.Join(dcs, ","))
 	info.Class(fmt.Sprintf("topology-%dpd-%ddc", len(c.PDs), len(dcs)))
-	ses := &gdSession{x: x, streams: map[string]*gdStream{}}
+	ses := &gdSession{x: x, streams: map[string]*gdStream{}, lepoch: map[string]int{}}
 	defer ses.close()
 	defer x.setGap(0)
 
@@ -661,6 +744,9 @@ func runGlobalDC(c GDCase) (vkit.Info, error) {
 			if !ok {
 				continue
 			}
+			if os.Getenv("VERIF_GD_DEBUG") != "" && b != lastRead[dc] {
+				note("window %s = %d (%s)", dc, b, when)
+			}
 			if b < lastRead[dc] {
 				return fmt.Errorf("the stored window bound of the %s allocator decreased from %d to %d ns (read %s)\n  %s", dc, lastRead[dc], b, when, strings.Join(notes, "\n  "))
 			}
@@ -669,7 +755,7 @@ func runGlobalDC(c GDCase) (vkit.Info, error) {
 		return nil
 	}
 	id := 0
-	episodesAbove, leaderChanges := 0, 0
+	episodesAbove, leaderChanges, localMoves := 0, 0, 0
 	pendingAbove := false
 	for si, st := range c.Steps {
 		switch {
@@ -690,6 +776,29 @@ func runGlobalDC(c GDCase) (vkit.Info, error) {
 			note("step %d: admin ResetTS now%+dms accepted=%v", si, st.ResetMs, ok)
 			info.ClassIf(ok, "admin-reset-accepted")
 			info.ClassIf(!ok, "admin-reset-refused")
+		case st.Move > 0:
+			dc := c.Names[(st.Move-1)%len(c.Names)]
+			found := false
+			for _, d := range dcs {
+				found = found || d == dc
+			}
+			if !found {
+				dc = dcs[(st.Move-1)%len(dcs)]
+			}
+			from, to, ok := x.handOver(dc)
+			note("step %d: local allocator of %s handed over %s -> %s ok=%v", si, dc, from, to, ok)
+			if !ok && !x.waitLeaders(c.PDs, 30*time.Second) {
+				gdMu.Lock()
+				x.destroy()
+				gdCur = nil
+				gdMu.Unlock()
+				info.Inconclusive = true
+				return info, nil
+			}
+			if ok {
+				ses.bump(dc)
+				localMoves++
+			}
 		case st.Resign:
 			if len(c.PDs) < 2 {
 				break
@@ -742,6 +851,9 @@ func runGlobalDC(c GDCase) (vkit.Info, error) {
 		}
 	}
 
+	if os.Getenv("VERIF_GD_DEBUG") != "" {
+		fmt.Println("GD-DEBUG", c.PDs, c.Names, "\n  "+strings.Join(notes, "\n  "))
+	}
 	// ---------------------------------------------------------------- oracle over the history
 	ses.hmu.Lock()
 	hist := append([]*gdEv(nil), ses.hist...)
@@ -791,18 +903,21 @@ func runGlobalDC(c GDCase) (vkit.Info, error) {
 			}
 		}
 	}
-	// (c)
+	// (c): per allocator, across a change of its leader
 	both := false
-	for _, g2 := range per[tso.GlobalDCLocation] {
-		for _, g1 := range per[tso.GlobalDCLocation] {
-			if g1.Epoch < g2.Epoch && g1.Recv < g2.Send {
-				both = true
-				if g2.first() <= g1.last() {
-					return info, fmt.Errorf("a global timestamp granted after the global allocator moved (%d) is not above a global timestamp granted before (%d): %s", g2.first(), g1.last(), ctxt(g1, g2))
+	for dc, es := range per {
+		for _, g2 := range es {
+			for _, g1 := range es {
+				if g1.Epoch < g2.Epoch && g1.Recv < g2.Send {
+					both = both || dc == tso.GlobalDCLocation
+					if g2.first() <= g1.last() {
+						return info, fmt.Errorf("a %s timestamp granted after the %s allocator moved to another member (%d) is not above a %s timestamp granted before (%d): %s", dc, dc, g2.first(), dc, g1.last(), ctxt(g1, g2))
+					}
 				}
 			}
 		}
 	}
+	info.ClassIf(localMoves > 0, "local-allocator-moved")
 	info.ClassIf(episodesAbove > 0, "global-attempt-inside-episode-d-above-g")
 	info.ClassIf(leaderChanges > 0, "global-allocator-moved")
 	info.ClassIf(both, "grants-on-both-sides-of-a-move")
